@@ -112,16 +112,23 @@ def same_modulo_sharing(text, i, m):
     return False
 
 
-def same_as_model(t, i, m):
-    """does the implementation do on this specification what the model of the code (with the recorded findings in it) does?"""
+def same_as_model(t, i, m, fields=None):
+    """does the implementation do on this specification what the model of the code (with the recorded findings in it) does?
+    With `fields`, only that part of an accepted result is compared (the part the property checked is about): a change
+    to the code that affects another part of the result leaves this property's tie alone."""
+    if fields and i.startswith("OK") and m.startswith("OK"):
+        fi = dict(x.split("=", 1) for x in i.split(" ")[1:])
+        fm = dict(x.split("=", 1) for x in m.split(" ")[1:])
+        if all(fi.get(k) == fm.get(k) for k in fields):
+            return True
     same = (i == m) if i.startswith("OK") or m.startswith("OK") else (canon_err(i) == canon_err(m))
     return same or same_modulo_sharing(t, i, m)
 
 
-def correspondence(ctx, texts, impl, model, what="spec.Parse"):
+def correspondence(ctx, texts, impl, model, what="spec.Parse", fields=None):
     n = 0
     for t, i, m in zip(texts, impl, model):
-        same = same_as_model(t, i, m)
+        same = same_as_model(t, i, m, fields)
         if not same:
             n += 1
             if n <= 3:
